@@ -6,6 +6,7 @@ CONSTANTS Producers = {"p1", "p2"}
           SafeEnv = TRUE
           Locks = TRUE
           RealTime = TRUE
+          Disconnect = TRUE
           NMsgs = 2
           ScriptSet = {"reset"}
           Script2Set = {"none"}
